@@ -171,6 +171,8 @@ def run_case(case) -> Outcome:
         leaf = g.leaves[p]
         if not out.check(leaf.grad is not None, "task-grad-missing", f"task leaf {p} has no .grad"):
             continue
+        if not out.check(tuple(leaf.grad.shape) == tuple(leaf.shape), "task-grad-shape", f"task leaf {p}: {tuple(leaf.grad.shape)}"):
+            continue
         got = (leaf.grad - (before[p] if before[p] is not None else 0)).double().numpy()
         err = float(np.abs(got - upd).max(initial=0.0))
         out.within(err, tol, "task-gradient",
